@@ -25,11 +25,11 @@ CLAIMED = {
          "Sequential requests only (concurrency: C03). Five defects found by this check were repaired by fix: commits (see known_findings.json).",
     technique="Coq case analysis + induction over operation histories; model/implementation correspondence by vm_compute; nonce-hypothesis check under equalised ambient state"),
  "C06": dict(category="proof", design_ref="7 (C06)",
-    text="14 Coq theorems (all closed, unbounded) on an executable model of _PeerTcpConnection framing/handshake/pending handling: segmentation invariance, exact in-order delivery, "
+    text="15 Coq theorems (all closed, unbounded) on an executable model of _PeerTcpConnection framing/handshake/pending handling: segmentation invariance, exact in-order delivery, "
          "containment of bad frames / handshake violations / forged addresses, exactly one error reply per pending request on close, no request left unanswered. Tie: the real class "
          "under the real _SocketManager with a scripted socket, faults at every position x 5 segmentations, compared event by event with the model; independent oracle.",
     note="Trusted: Coq kernel+vm_compute; hand model; harness (scripted socket, stub loop/router); pickle round trip assumed (deser is a Section variable); payload bytes the framing "
-         "layer never reads are length-preserving surrogates except in a literal sample; independence of other connections is checked by the oracle only.",
+         "layer never reads are length-preserving surrogates except in a literal sample; independence of other connections is checked by the oracle only. The correspondence compares what the property fixes (messages delivered in order, which pending requests get exactly one delivery error and which were refused by the router, messages written, closed and removed from the peer map, peer name / pending ids / buffer length while open); the KIND and text of a protocol error, log output and the sizes of locally generated replies are abstracted; MAX_MESSAGE_SIZE and the recv chunk size are read from the code under test.",
     technique="Coq induction over frame lists and operation scripts; H1 differential run with fault injection"),
  "C11": dict(category="proof", design_ref="7 (C11)",
     text="9 Coq theorems (all closed) on a concurrent machine running the transcribed stop_task / wait_for_condition / get_next_signal (blocking, timed and the non-blocking form timeout=0) / sleep / loop-task programs, with and without a second waiter on the same receiver (7 variants x signal environment), at "
@@ -78,7 +78,7 @@ CLAIMED = {
          "ASCII identifiers, acyclic includes, values are opaque atoms.",
     technique="Coq invariant and induction proofs over symbol lists; correspondence by vm_compute with a simulated ADwin"),
  "C14": dict(category="proof", design_ref="7 (C14)",
-    text="14 Coq theorems (all closed) generic over every string, default dictionary, well-formed parser table and behaviour of int()/float()/host predicates: faithfulness of "
+    text="18 Coq theorems (all closed), incl. an explicit set of ALLOWED outcomes (Model.allowed): a repeated keyword may resolve to any ONE of the values the string gives or to the descriptor error; a non-strict form, a surplus field or a non-canonical number spelling may be the error; C14_allowed_faithful: every allowed Ok outcome is a transport of the dispatched class in which each parameter holds the typed value of one of the parts the string gives for it, else the caller default, else the constructor default, nothing outside the table; C14_allowed_tight: for strict, canonically written descriptors without a repeated keyword the set is the single pinned outcome; C14_allowed_has_pinned. The correspondence tests MEMBERSHIP of the observed outcome in the allowed set. The theorems are generic over every string, default dictionary, well-formed parser table and behaviour of int()/float()/host predicates: faithfulness of "
          "the table-driven parser and of create_transport's dispatch, rejection of missing-required / unknown keyword / untypable value / repeated '=', bracketed (IPv6) hosts, "
          "USBTMC resource round trip; plus 12 obligations re-proved by vm_compute on every run about the parser tables REGENERATED on every run from the LIVE objects of the imported qmi.core.transport (every module-level TransportDescriptorParser instance: interface, positional and keyword specs with type and required flag; constructor signatures and defaults by inspect.signature; the dispatch of create_transport found by probing the real function with recording parsers and constructors), fail closed on anything the model has no "
          "counterpart for. Totality of the real code (no exception class other than the descriptor error escapes) is established by the differential run: ~5.4k grammar-built, "
@@ -88,7 +88,7 @@ CLAIMED = {
          "two USBTMC resource round-trip findings (serial numbers containing ':' or '=') remain open known findings.",
     technique="generic table-driven Coq theorems + reflection on tables regenerated from the live parser objects + differential fuzzing"),
  "C15": dict(category="proof", design_ref="7 (C15)",
-    text="58 Coq theorems + 8 generated per-packet obligations (all closed) over executable models of the five codecs. Interbus: round trip incl. reserved bytes in data and CRC, framing, "
+    text="63 Coq theorems + 8 generated per-packet obligations (all closed) over executable models of the five codecs. Every tuning constant or open implementation choice the property does not fix is a PARAMETER of the model, universally quantified in the theorems and read from (or probed on) the code under test on every run: Interbus retry bound, host base address and message-type set, USBTMC max_transfer_size, whether APT ask checks the id of HEADER_ONLY replies (C15_ib_attempt: a correct reply on attempt k yields the payload iff k <= bound+1, otherwise an error, never wrong data). Interbus: round trip incl. reserved bytes in data and CRC, framing, "
          "escape inverse, CRC append, rejection/soundness, detection of every single-byte corruption, address matching and bounded retries. USBTMC: write_raw reassembled exactly by a "
          "reference device for every length, transfer size and tag incl. the Advantest 63-byte quirk; read_raw for every split, unlimited and size-limited. T2: batch-split invariance, "
          "timestamp formula, refinement of an unbounded physical-time specification across the 2^64 wrap (no event lost or duplicated). SCPI: block round trip and soundness under any "
@@ -98,8 +98,8 @@ CLAIMED = {
          "cases quick, 91k thorough) plus an independent conforming-device oracle and a pinned table of documented APT layouts.",
     note="Trusted: Coq kernel+vm_compute incl. CRC sweeps (65536-state, 255-value) lifted by forallb_forall (finite domains, bounds stated); hand models; harness stubs; the APT translator; numpy "
          "uint64 arithmetic and ctypes packed layout / truncation / char-array NUL handling assumed and compared. USBTMC read_raw quirk branches and USBError paths, term_char, T3 are outside; "
-         "C15_usbtmc_in_limited assumes the device never exceeds the requested TransferSize (the _served form does not).",
-    technique="executable Gallina codecs; induction, round-trip, soundness and simulation proofs; finite CRC sweeps; translator-fed layout theorem; differential testing"),
+         "C15_usbtmc_in_limited assumes the device never exceeds the requested TransferSize (the _served form does not). The tie compares outcomes as data-versus-error: exception class, wording and bytes consumed before an error are not fixed by the property (theorem statements carry the current classes). The Interbus retry POLICY (malformed/timeout => resend and retry; mis-addressed => wait without resend; source toggle) is modelled as the code has it: a change of that policy shows as a broken tie without a failing input, never as a concrete claim.",
+    technique="executable Gallina codecs; induction, round-trip, soundness and simulation proofs; finite CRC sweeps; translator-fed layout theorem; models parametrized by live-read/probed constants (forall bounds); differential testing"),
  "C12": dict(category="proof", design_ref="7 (C12)",
     text="18 Coq theorems (all closed); 11 over ALL finite operation-and-fault histories (fault inputs carry their exception class: Exception-like / BaseException-only) of an executable model of the context and singleton lifecycle (exception monad with catch exactly where "
          "the code has try/except-log): table invariant (unique names, no reservation left, handlers = live names, one worker thread per live object, nothing released twice), duplicate "
@@ -167,7 +167,7 @@ CLAIMED = {
          "value is held, whole; release only after join; the runner's constructor is part of the system: make_task returns a proxy iff the task constructor succeeded and raises the task-init error iff it raised (any BaseException), then the thread has exited, run() is never invoked and nothing is enabled afterwards; the reachable states have exactly 14 shapes (each reached by a witness); from every state with a runner stop is accepted and a stop-honouring task reaches thread exit within 4 internal steps (rank argument), join then reports the run error iff run() failed. QMI_LoopTask: the missed-period arithmetic of run() over integer ticks for all inputs - IMMEDIATE re-bases to now+period, SKIP advances to the first grid point strictly after now (minimality proved: no off-by-one), TERMINATE makes the first missed period the last iteration and loop_finalize runs, next_time is in the future at every iteration entry and stays on the grid. Tie: real QMI_Context + make_task with scripted task classes under the deterministic scheduler (random, PCT, DFS with preemption "
          "bound); every operation placed at its linearisation point; the model must accept the trace with equal results, run() count and thread-exit flag; a share of the schedules and two exhaustive DFS scenarios switch at source-line granularity inside update_settings / set_settings / get_pending_settings / _TaskThread.run/start_task/stop_task; the exception class raised by run() and by the task constructor is an input (Exception, custom BaseException, SystemExit, KeyboardInterrupt, stop exception and subclass); real QMI_LoopTask subclasses under virtual time with scripted iteration durations, run()'s next_time read at every iteration; independent oracles.",
     note="Trusted: Coq kernel+vm_compute; hand model; dsched; observation hooks in c10.py. Each label is assumed atomic (regions under _state_cond, Event ops, single deque ops); the RPC worker "
-         "serialises runner methods; task scripts terminate (join on a never-ending task blocks by documentation and is exercised only as an expected deadlock).",
+         "serialises runner methods; task scripts terminate; a join() on a task that is never started nor stopped is observed as blocked for ever, meaning either a scheduler dead-lock or the virtual clock passing T_MAX = 3600 s without the operation returning (the model has it as a disabled step). Posted settings values are drawn from a small pool with repeats incl. the task's initial value, in three equal-by-content representations; a post is an event, values are compared by content.",
     technique="LTS with inductive invariant over label lists and a rank argument for termination; trace acceptance at linearisation points with line-level DFS; functional model of the loop-task arithmetic checked against real runs under virtual time"),
  "C05": dict(category="proof", design_ref="7 (C05)",
     text="9 generic Coq theorems (all closed) over a model of Python attribute lookup along the MRO (type.__getattribute__ for what inspect.getmembers/make_interface_descriptor "
